@@ -170,7 +170,13 @@ fn gen_history(rng: &mut StdRng, nops: usize, delete_all: bool, avoid_f0: bool, 
             pending_ops = 0;
             fresh_writer = true;
         } else if x < 91 {
-            ops.push(json!({"op":"merge"}));
+            // an explicit merge: of the committed segments, or (two times in five) of whatever sits in
+            // the uncommitted register right now
+            if rng.random_range(0..5) < 2 {
+                ops.push(json!({"op":"merge_uncommitted"}));
+            } else {
+                ops.push(json!({"op":"merge"}));
+            }
         } else if x < 94 {
             ops.push(json!({"op":"drop_writer"}));
             open = false;
